@@ -180,6 +180,50 @@ impl Prop for C05 {
                 move |f| enumr::grids_slice(&SBOX, w, h, sl, nsl, &mut |g| f(Case::s(g))),
             ));
         }
+        v.push(Scope::new(
+            "rails-and-rungs",
+            "two parallel rails of length 3..9 joined by two rungs at every pair of positions, rails overhanging the rungs on either or both sides, in both orientations, gaps 1..3",
+            |f| {
+                for l in 3..=9usize {
+                    for i in 0..l {
+                        for j in (i + 1)..l {
+                            for gap in 1..=3usize {
+                                // horizontal rails, vertical rungs
+                                let mut rows: Vec<Vec<char>> = vec![vec!['-'; l]];
+                                for _ in 0..gap {
+                                    let mut r = vec![' '; l];
+                                    r[i] = '|';
+                                    r[j] = '|';
+                                    rows.push(r);
+                                }
+                                rows.push(vec!['-'; l]);
+                                rows[0][i] = '+';
+                                rows[0][j] = '+';
+                                let last = rows.len() - 1;
+                                rows[last][i] = '+';
+                                rows[last][j] = '+';
+                                let h: String = rows.iter().map(|r| r.iter().collect::<String>().trim_end().to_string()).collect::<Vec<_>>().join("\n");
+                                f(Case::s(h));
+                                // transposed: vertical rails, horizontal rungs
+                                let mut t: Vec<Vec<char>> = vec![vec![' '; gap + 2]; l];
+                                for (y, row) in t.iter_mut().enumerate() {
+                                    row[0] = '|';
+                                    row[gap + 1] = '|';
+                                    if y == i || y == j {
+                                        row[0] = '+';
+                                        row[gap + 1] = '+';
+                                        for x in 1..=gap {
+                                            row[x] = '-';
+                                        }
+                                    }
+                                }
+                                f(Case::s(t.iter().map(|r| r.iter().collect::<String>()).collect::<Vec<_>>().join("\n")));
+                            }
+                        }
+                    }
+                }
+            },
+        ));
         v.push(Scope::new("grid4-3x3", "all 3x3 grids over {space,-,|,+}", |f| {
             enumr::grids(&[' ', '-', '|', '+'], 3, 3, &mut |g| f(Case::s(g)))
         }));
